@@ -11,7 +11,7 @@ from vlib import *
 
 REPLAY_KINDS = ("cli-tree", "cli-trace")
 
-INV = {"C08": ["C08"], "C09": ["C09"], "C10": ["C10"], "C11": ["C11"], "C18": ["C18"],
+INV = {"C08": ["C08"], "C09": ["C09", "GlobDiffLaw"], "C10": ["C10"], "C11": ["C11"], "C18": ["C18"],
        "C16": ["C08", "C09", "C10", "C11", "C18"], "C12": ["C09", "C10", "C18"]}
 
 
@@ -30,16 +30,18 @@ def cli_cfg(layouts, methods, xffs, horizon, vals, maxprep, fullgrid=False, expo
 
 # (layouts, methods, xffs, horizon, vals, maxprep, fullgrid)
 MC_PLAN = {
-    "quick": [("CLayoutsQuick", "MethodSum", "XffZero", 1, "Vals1", 2, False)],
-    "thorough": [("CLayoutsQuick", "MethodSum", "XffZero", 1, "Vals1", 3, False),
+    "quick": [("CLayoutsQuick", "MethodSum", "XffZero", 1, "Vals1", 2, False),
+              ("CLayoutsTwo", "MethodSum", "XffZero", 0, "Vals1", 1, False)],      # layouts that differ only in a point count
+    "thorough": [("CLayoutsTwo", "MethodSum", "XffZero", 1, "Vals1", 2, False),("CLayoutsQuick", "MethodSum", "XffZero", 1, "Vals1", 3, False),
                  ("CLayoutsQuick", "MethodsSL", "XffHalf", 1, "Vals2", 2, True),
                  ("CLayouts3", "MethodSum", "XffZero", 1, "Vals1", 2, False),
                  ("CLayoutsMix", "MethodSum", "XffZero", 1, "Vals1", 2, False)],
 }
 # export: + rows per tree
 EXPORT_PLAN = {
-    "quick": [("CLayoutsQuick", "MethodSum", "XffZero", 1, "Vals1", 2, False, 3)],
-    "thorough": [("CLayoutsQuick", "MethodSum", "XffZero", 1, "Vals1", 3, False, 2),
+    "quick": [("CLayoutsQuick", "MethodSum", "XffZero", 1, "Vals1", 2, False, 3),
+              ("CLayoutsTwo", "MethodSum", "XffZero", 0, "Vals1", 1, False, 4)],
+    "thorough": [("CLayoutsTwo", "MethodSum", "XffZero", 1, "Vals1", 2, False, 3),("CLayoutsQuick", "MethodSum", "XffZero", 1, "Vals1", 3, False, 2),
                  ("CLayoutsQuick", "MethodsSL", "XffHalf", 1, "Vals2", 2, True, 4),
                  ("CLayouts3", "MethodSum", "XffZero", 1, "Vals1", 2, False, 3),
                  ("CLayoutsMix", "MethodSum", "XffZero", 1, "Vals1", 2, False, 3)],
